@@ -10,6 +10,7 @@ import (
 	"bytes"
 	"fmt"
 	"testing"
+	"time"
 
 	"pgregory.net/rapid"
 )
@@ -24,6 +25,11 @@ const (
 type vfC03Op struct {
 	Kind int `json:"k"`
 	N    int `json:"n,omitempty"`
+	// Expired: the read is issued with a timer that has already fired while its data may already be queued. Whichever the reader
+	// notices first, a read that fails with the timeout has consumed nothing: the same read issued again delivers what the reference
+	// says. Only used for reads that start exactly at a chunk boundary and end inside the next chunk: the timer is then looked at
+	// once, before anything has been pulled (a timeout after part of a line has been pulled does lose that part).
+	Expired bool `json:"x,omitempty"`
 }
 
 type vfC03Case struct {
@@ -131,13 +137,29 @@ func vfC03Run(cs vfC03Case) (msg string, nontrivial bool, nOps int) {
 		nOps++
 		var got []byte
 		var err error
-		switch op.Kind {
-		case vfOpStrict:
-			got, err = b.readLine(false, nil)
-		case vfOpJunk:
-			got, err = b.readLine(true, nil)
-		case vfOpBinary:
-			got, err = b.readBinary(op.N, nil)
+		var to <-chan time.Time
+		atChunkStart := cur == 0 && consumedBefore == 0
+		if consumedBefore > 0 && consumedBefore <= len(chunkEnd) && cur == chunkEnd[consumedBefore-1] {
+			atChunkStart = true
+		}
+		if op.Expired && atChunkStart && ref.lastByte >= cur && chunkOf(ref.lastByte) == consumedBefore && consumedBefore < len(chunks) {
+			fired := make(chan time.Time)
+			close(fired)
+			to = fired
+		}
+		for attempt := 0; attempt < 2; attempt++ {
+			switch op.Kind {
+			case vfOpStrict:
+				got, err = b.readLine(false, to)
+			case vfOpJunk:
+				got, err = b.readLine(true, to)
+			case vfOpBinary:
+				got, err = b.readBinary(op.N, to)
+			}
+			if to == nil || err != errReceiveDataTimeout {
+				break
+			}
+			to = nil // timed out before anything was pulled: the same read again, without a timer
 		}
 		if ref.kind == "interrupt" {
 			if err == nil || err.Error() != "Interrupted" {
@@ -290,6 +312,7 @@ func vfGenC03(rt *rapid.T) vfC03Case {
 			}
 			op.N = rapid.IntRange(0, mx).Draw(rt, "bn")
 		}
+		op.Expired = rapid.IntRange(0, 3).Draw(rt, "expired") == 0
 		cs.Ops = append(cs.Ops, op)
 	}
 	return cs
